@@ -237,37 +237,6 @@ Section Erase.
         rewrite IH. cbn [erase]. rewrite map_aset. reflexivity.
   Qed.
 
-  Lemma erase_grow_up : forall s (r : anode),
-    let '(st, r', s') := agrow_up dflt L I s r in
-    grow_up dflt L I (oracle s) (erase r) = (st, erase r', oracle s').
-  Proof.
-    intros s r. unfold agrow_up, grow_up.
-    pose proof (alloc_sim Aligned s) as A. destruct (AllocModel.alloc Aligned s) as [[nid|] s1].
-    - destruct A as [A _]. rewrite A. cbn [negb].
-      pose proof (alloc_sim Aligned s1) as A1. destruct (AllocModel.alloc Aligned s1) as [[rid|] s2].
-      + destruct A1 as [A1 _]. rewrite A1. cbn [negb]. rewrite (erase_split_child rid). reflexivity.
-      + rewrite A1. reflexivity.
-    - rewrite A. reflexivity.
-  Qed.
-
-  Lemma erase_insert : forall s (t : atree) e,
-    let '(st, t', s', lg) := ainsert_op rank dflt L I s t e in
-    insert rank dflt L I (oracle s) (erase_tree t) e = (st, erase_tree t', oracle s', lg).
-  Proof.
-    intros s t e. unfold ainsert_op, insert. cbn [erase_tree root size].
-    rewrite ais_full_erase.
-    destruct (ais_full L I (a_root t)).
-    - pose proof (erase_grow_up s (a_root t)) as G.
-      destruct (agrow_up dflt L I s (a_root t)) as [[st0 r0] s0]. rewrite G.
-      destruct st0; try reflexivity.
-      pose proof (erase_insert_down (aheight r0) s0 r0 e) as D. rewrite aheight_erase.
-      destruct (ainsert_down rank dflt L I (aheight r0) s0 r0 e) as [[[st r1] s1] lg].
-      rewrite D. reflexivity.
-    - pose proof (erase_insert_down (aheight (a_root t)) s (a_root t) e) as D. rewrite aheight_erase.
-      destruct (ainsert_down rank dflt L I (aheight (a_root t)) s (a_root t) e) as [[[st r1] s1] lg].
-      rewrite D. reflexivity.
-  Qed.
-
   (* ---------------------------------------------------------------- remove_min / remove_max *)
   Lemma erase_remove_min : forall f s (n : anode),
     let '(m, n', s') := aremove_min dflt L I f s n in
@@ -452,3 +421,47 @@ Section Erase.
     destruct (AllocModel.alloc Aligned s1) as [[rid|] s2]; [reflexivity|exact Logic.I].
   Qed.
 End Erase.
+
+(* ---------------------------------------------------------------- grow_up / insert (H = ZIX_BTREE_MAX_HEIGHT enters here) *)
+Section EraseTop.
+  Variable elt : Type.
+  Variable rank : elt -> Z.
+  Variable dflt : elt.
+  Variables L I : nat.
+  Variable H : nat.
+  Notation anode := (anode elt).
+  Notation atree := (atree elt).
+  Local Notation E5 l := (l elt rank dflt L I) (only parsing).
+
+  Lemma erase_grow_up : forall s (r : anode),
+    let '(st, r', s') := agrow_up dflt L I H s r in
+    grow_up dflt L I H (oracle s) (erase r) = (st, erase r', oracle s').
+  Proof.
+    intros s r. unfold agrow_up, grow_up. rewrite (E5 aheight_erase).
+    destruct (H <=? aheight r); [reflexivity|].
+    pose proof (E5 alloc_sim Aligned s) as A. destruct (AllocModel.alloc Aligned s) as [[nid|] s1].
+    - destruct A as [A _]. rewrite A. cbn [negb].
+      pose proof (E5 alloc_sim Aligned s1) as A1. destruct (AllocModel.alloc Aligned s1) as [[rid|] s2].
+      + destruct A1 as [A1 _]. rewrite A1. cbn [negb]. rewrite (E5 erase_split_child rid). reflexivity.
+      + rewrite A1. reflexivity.
+    - rewrite A. reflexivity.
+  Qed.
+
+  Lemma erase_insert : forall s (t : atree) e,
+    let '(st, t', s', lg) := ainsert_op rank dflt L I H s t e in
+    insert rank dflt L I H (oracle s) (erase_tree t) e = (st, erase_tree t', oracle s', lg).
+  Proof.
+    intros s t e. unfold ainsert_op, insert. cbn [erase_tree root size].
+    rewrite (E5 ais_full_erase).
+    destruct (ais_full L I (a_root t)).
+    - pose proof (erase_grow_up s (a_root t)) as G.
+      destruct (agrow_up dflt L I H s (a_root t)) as [[st0 r0] s0]. rewrite G.
+      destruct st0; try reflexivity.
+      pose proof (E5 erase_insert_down (aheight r0) s0 r0 e) as D. rewrite (E5 aheight_erase).
+      destruct (ainsert_down rank dflt L I (aheight r0) s0 r0 e) as [[[st r1] s1] lg].
+      rewrite D. reflexivity.
+    - pose proof (E5 erase_insert_down (aheight (a_root t)) s (a_root t) e) as D. rewrite (E5 aheight_erase).
+      destruct (ainsert_down rank dflt L I (aheight (a_root t)) s (a_root t) e) as [[[st r1] s1] lg].
+      rewrite D. reflexivity.
+  Qed.
+End EraseTop.
